@@ -141,11 +141,10 @@ theorem C13c_quiescent_exact {c : Cfg} {s : State} (h : Reach c s) (hq : Quiesce
   have := C13c_accounting_identity h
   rw [pending_zero_of_quiescent hq] at this; omega
 
-/-- `drift` changes only in a `clear` and in the capacity pass's map section -/
+/-- `drift` changes only in the capacity pass's map section -/
 theorem C13c_drift_frame {c : Cfg} {s s' : State} {t : Nat} {l : Label} (h : step c s t l = some s')
-    (h1 : l ≠ .clear) (h2 : ∀ b, l ≠ .capMap b) : s'.drift = s.drift ∧ s'.dirty = s.dirty := by
+    (h2 : ∀ b, l ≠ .capMap b) : s'.drift = s.drift ∧ s'.dirty = s.dirty := by
   cases l <;> simp only [step] at h
-  case clear => exact absurd rfl h1
   case capMap b => exact absurd rfl (h2 b)
   case call op => unfold stepCall at h; repeat' split at h
                   all_goals (simp at h; try subst h)
@@ -158,17 +157,21 @@ theorem C13c_drift_frame {c : Cfg} {s s' : State} {t : Nat} {l : Label} (h : ste
     | (unfold stepOiMap at h) | (unfold stepOiEv at h) | (unfold stepOiAdd at h) | (unfold stepMLock at h)
     | (unfold stepRecv at h) | (unfold stepAdmit at h) | (unfold stepVictim at h) | (unfold stepEvSub at h)
     | (unfold stepEvNote at h) | (unfold stepTtlAdvance at h) | (unfold stepTtlMap at h) | (unfold stepCapLoad at h)
-    | (unfold stepCapEvict at h) | (unfold stepCapSub at h) | (unfold stepUnlock at h)
+    | (unfold stepCapEvict at h) | (unfold stepCapSub at h) | (unfold stepUnlock at h) | (unfold stepClear at h)
   all_goals (repeat' split at h)
   all_goals (simp at h; try subst h)
   all_goals exact ⟨rfl, rfl⟩
 
-/-- what a `clear` does to `drift`: it becomes the sum of the adjustments the other threads still owe -/
-theorem C13c_drift_clear {c : Cfg} {s s' : State} {t : Nat} (h : step c s t .clear = some s') :
-    s'.drift = pendingAdj c s ∧ s'.dirty = (s.dirty || decide (pendingAdj c s ≠ 0)) := by
+/-- **`clear` is exact** (since /repo 7e5c084): it takes out every resident entry and subtracts exactly
+their cost in the same critical section; the adjustments other threads still owe are untouched. -/
+theorem C13c_clear_exact {c : Cfg} {s s' : State} {t : Nat} (h : step c s t .clear = some s') :
+    s'.cur = s.cur - residentCost s ∧ residentCost s' = 0 ∧ s'.drift = s.drift ∧ s'.dirty = s.dirty := by
   simp only [step] at h
   unfold stepClear at h; split at h
-  · simp at h; subst h; exact ⟨rfl, by simp⟩
+  · simp at h; subst h
+    refine ⟨rfl, ?_, rfl, rfl⟩
+    simp only [residentCost]
+    exact sumF_zero (by intros; rfl)
   · simp at h
 
 /-- what the capacity pass's map section does to `drift`: it moves by (cost actually removed) −
@@ -183,9 +186,11 @@ theorem C13c_drift_capMap {c : Cfg} {s s' : State} {t : Nat} {b : Bool} (h : ste
   · simp at h
 
 /-- **C13 accounting, partial**: in every QUIESCENT reachable state, `current_cost` equals the sum
-of the costs of the resident entries — PROVIDED no `clear` ran while another thread owed a cost
-adjustment and every capacity pass was told by its policy exactly the cost of what it removed
-(`dirty = false`). -/
+of the costs of the resident entries — PROVIDED every capacity pass was told by its policy exactly
+the cost of what it removed (`dirty = false`; `dirty` is set by `capMap` steps only, see
+`C13c_drift_frame` / `C13c_drift_capMap`). Every other path — insert, overwrite with another cost,
+remove, or_insert, admission-driven eviction, TTL cleanup, `clear` — under every interleaving adds each
+entry's cost exactly once and subtracts it exactly once. -/
 theorem C13c_quiescent_accounting_partial {c : Cfg} {s : State} (h : Reach c s) (hq : Quiescent c s)
     (hc : s.dirty = false) : s.cur = residentCost s := by
   have := C13c_quiescent_exact h hq
@@ -207,8 +212,10 @@ def C13c_accounting_statement : Prop :=
 def cfg2 : Cfg := { nThreads := 2, nShards := 1, capacity := 100 }
 def cfg3 : Cfg := { nThreads := 2, nShards := 1, capacity := 3 }
 
-/-- thread 0 inserts key 1 (cost 5): the map write is done, the cost not yet added; thread 1 clears
-(`store(0)`); thread 0 then adds 5. Quiescent, nothing resident, `current_cost = 5`. -/
+/-- the schedule that broke accounting before /repo 7e5c084 (`clear` stored 0): thread 0 inserts key 1
+(cost 5), the map write is done, the cost not yet added; thread 1 clears; thread 0 then adds 5.
+With `clear` subtracting the removed cost the counter passes through −5 (the `u64` wraps) and ends at
+0 = resident cost. Kept as a regression example. -/
 def traceClearOverlap : List (Nat × Label) :=
   [(0, .call (.insert 1 10 5)), (0, .insMap), (1, .call .clear), (1, .clear),
    (0, .insEv), (0, .insAdd), (0, .coopSkip)]
@@ -226,7 +233,7 @@ def traceCapacityRace : List (Nat × Label) :=
    (1, .capMap true), (1, .capSub), (1, .unlock)]
 
 theorem run_clearOverlap :
-    (run cfg2 init traceClearOverlap).map (fun s => (s.cur, residentCost s, decide (Quiescent cfg2 s))) = some (5, 0, true) := by
+    (run cfg2 init traceClearOverlap).map (fun s => (s.cur, residentCost s, decide (Quiescent cfg2 s), s.dirty)) = some (0, 0, true, false) := by
   decide
 
 theorem run_capacityRace :
@@ -243,11 +250,6 @@ theorem fails_of_run {c : Cfg} {tr : List (Nat × Label)} {a b : Int}
     rw [hr] at h; simp at h
     have := hst c s (reach_of_run tr _ _ Reach.init hr) h.2.2
     rw [h.1, h.2.1] at this; exact hab this
-
-/-- **`insert ‖ clear`**: the accounting clause is false of the code (the counter keeps the cost of an
-entry that `clear` removed). -/
-theorem C13c_accounting_fails_clear_overlap : ¬ C13c_accounting_statement :=
-  fails_of_run run_clearOverlap (by decide)
 
 /-- **`remove ‖ capacity pass`** (F8c under interleaving): the cost of one removal is subtracted twice. -/
 theorem C13c_accounting_fails_capacity_race : ¬ C13c_accounting_statement :=
